@@ -84,8 +84,9 @@ def less (a b : Diag) : Bool :=
   else if a.desc.end_.off ≠ b.desc.end_.off then decide (a.desc.end_.off < b.desc.end_.off)
   else decide (a.build < b.build)
 
-/-- `makeCaseFoldedString` (`strings.ToLower`; ASCII here) -/
-def foldCase (s : String) : String := s.toLower
+/-- `makeCaseFoldedString` (`strings.ToLower`; ASCII letters here), as the list of folded
+characters — only equality of folded names is ever used -/
+def foldCase (s : String) : List Char := s.toList.map Char.toLower
 
 /-- `diagnostic.equal` -/
 def Diag.equal (p o : Diag) : Bool :=
